@@ -33,7 +33,8 @@ RULE = ("Round 8: before its session is claimed an association also gets datagra
         "thorough 16 x 600. distinct_nontrivial = distinct (direction, message name, region slot, preceded-by-garbage) "
         "deliveries checked"
         ". Round-5 additions: 12% of the valid traffic are the messages whose content the proxy reads on the way through (owner-say chat with RLV-looking and near-RLV text incl. bare '@', leading whitespace, missing NUL, invalid UTF-8; region handshakes; agent data updates; chat commands); a template-conformant datagram (independent encoder) that the library's decoder refuses is a violation, not a harness failure"
-        ". Round 7: one association sends to 1400 (thorough 5000) distinct unrelated addresses; every 64 the open circuit's traffic must still be delivered once in both directions; extras with isolated zeros")
+        ". Round 7: one association sends to 1400 (thorough 5000) distinct unrelated addresses; every 64 the open circuit's traffic must still be delivered once in both directions; extras with isolated zeros"
+        ". Round 9: 8% of the valid traffic carries the ACK flag with a trailer that counts no acks; associations opened through the real SOCKS5 control-connection handler (stand-in sockets) while other control connections come and go (logout, failed greetings, unsupported commands)")
 ASSUMPTIONS = [
     "an open circuit = UseCircuitCode seen from the viewer for a region the session knows, not (yet) closed by "
     "CloseCircuit/DisableSimulator; nothing is demanded for closed circuits until a new UseCircuitCode",
@@ -298,8 +299,8 @@ def _run_sequence(ctx, rng, rig, seq_seed, same_ip, vocache=None):
                                      handle=((2000 + si) << 32) | (1000 + slot))
             c = Circ(si, slot, addr)
             # packet ids whose big-endian bytes (after a zero flags byte) look like a SOCKS5 UDP header are legal too
-            c.out_id = rng.choice([1, 1, 200, 250, 700, 760, 65000, 2 ** 24 - 5])
-            c.in_id = rng.choice([1, 1, 200, 250, 700, 760, 65000, 2 ** 24 - 5])
+            c.out_id = rng.choice([1, 1, 0, 200, 250, 700, 760, 65000, 2 ** 24 - 5])
+            c.in_id = rng.choice([1, 1, 0, 200, 250, 700, 760, 65000, 2 ** 24 - 5])
             circuits.append(c)
     assocs = [rig.add_association(clients[0]), rig.add_association(clients[1])]
     # witnesses: state-keeping code hangs off these handlers, a discarded datagram must never get that far
